@@ -162,7 +162,8 @@ def genCases (tier : String) (seed : Nat) : List String :=
       else [[[.erase], [.set [1, 2]], [.get]], [[.set [1, 2]], [.size], [.erase]]]
     progs.flatMap (fun ps => inits.flatMap (fun i0 => allProbes store ps i0 (if thorough then 400 else 70)))
   -- free-running stress (no scheduler): the FIRST accesses to a key of a fresh store instance are concurrent
-  [s!"c18 stress store=fs rounds={if thorough then 6000 else 1500} readers=7"] ++
+  [s!"c18 stress store=fs rounds={if thorough then 6000 else 1500} readers=7",
+   s!"c18 stress store=mem rounds={if thorough then 4000 else 600} readers=3"] ++
   pairs opAlphabetMem "mem" ++ pairs opAlphabetFs "fs" ++ triples "fs" ++ triples "mem" ++
   sampled opAlphabetMem "mem" (if thorough then 150 else 25) 2 2 (if thorough then 400 else 60) (seed * 7919 + 1) ++
   sampled opAlphabetMem "mem" (if thorough then 60 else 10) 3 1 (if thorough then 400 else 60) (seed * 7919 + 2) ++
